@@ -456,14 +456,13 @@ class RawAlgorithmsMixIn:
 
             if len(mask[0]) == 0:
                 break
-            elif len(mask) == 1:
-                mask = mask[0]
 
-            x_data[:D-1, mask] = x_data[1:, mask]
-            x_data[D-1,  mask] = 0.
+            # mask is a tuple of index arrays over the axes (P, ...) of y_data[0]
+            x_data[(slice(None,D-1),) + mask] = x_data[(slice(1,None),) + mask]
+            x_data[(D-1,) + mask] = 0.
 
-            y_data[:D-1, mask] = y_data[1:, mask]
-            y_data[D-1,  mask] = 0.
+            y_data[(slice(None,D-1),) + mask] = y_data[(slice(1,None),) + mask]
+            y_data[(D-1,) + mask] = 0.
 
         for d in range(D):
             z_data[d,:,...] = 1./ y_data[0,:,...] * \
